@@ -93,6 +93,9 @@ def cases(tier, seed):
             for form in ('submodule', 'named-target', 'copy-directory'):
                 yield {'kind': 'sibling', 'backend': backend, 'dir': tdir, 'sibling': None,
                        'rest': None, 'form': form, 'sources': [a, b], 'tag': 'cross-tree'}
+    for backend in ('make', 'ninja'):
+        for fl in sorted(GENSHARED):
+            yield {'kind': 'genshared', 'backend': backend, 'flavour': fl}
     n = 30 if tier == 'quick' else 250
     for i in range(n):
         r = core.rng_for(seed, 'c05set', i)
@@ -477,8 +480,66 @@ def run_sibling(case, res):
         core.rmtree(root)
 
 
+GENSHARED = {
+    # a source that lives in the BUILD directory (generated by a step, or named with an
+    # explicit build-dir Path) compiled for two different targets: two different objects
+    'generated-source-in-library-and-program':
+        "g = build_step('gen/version.c', cmd=['vrec', '--touch', build_step.output, '--end'])\n"
+        "lib = static_library('core', files=[g], compile_options=['-DL=1'])\n"
+        "default(executable('tool', files=['main.c', g], libs=[lib]))\n",
+    'step-output-in-two-programs':
+        "g = build_step('gen/tab.c', cmd=['vrec', '--touch', build_step.output, '--end'])\n"
+        "default(executable('p1', files=['main.c', g]), executable('bin/p2', files=['main.c', g]))\n",
+    'builddir-path-in-program-and-submodule':
+        "g = build_step('cfg/who.c', cmd=['vrec', '--touch', build_step.output, '--end'])\n"
+        "default(executable('top', files=['main.c', Path('cfg/who.c', Root.builddir)]))\n"
+        "submodule('sub')\n",
+}
+
+
+def run_genshared(case, res):
+    backend = case['backend']
+    root = core.mkscratch('c05g')
+    try:
+        src, bld = os.path.join(root, 'src'), os.path.join(root, 'bld')
+        files = {'build.bfg': GENSHARED[case['flavour']], 'main.c': 'int main(void){return 0;}\n',
+                 'version.c.in': 'int v;\n',
+                 'sub/build.bfg': "default(executable('subprog', files=['m.c', "
+                                  "Path('cfg/who.c', Root.builddir)]))\n",
+                 'sub/m.c': 'int main(void){return 0;}\n'}
+        proj.write_tree(src, files)
+        log = os.path.join(root, 'log')
+        extra = proj.stub_toolchain_env(log)
+        extra.update({'CP': 'vwrap-cp -f', 'VSTUB_ENVKEYS': 'NONE'})
+        env = core.base_env(extra)
+        res.evaluations = 1
+        res.key(['genshared', backend, case['flavour']], True)
+        wb = {'backend': backend, 'flavour': case['flavour'], 'script': GENSHARED[case['flavour']]}
+        rc, out = proj.configure(src, bld, backend, env=env)
+        if rc != 0:
+            res.violate((backend, 'distinct-targets-refused', 'shared-build-dir-source'),
+                        dict(wb, output=out[-500:]))
+            return
+        rc, out = proj.build(bld, backend, [], env=env)
+        objs = []
+        for r in proj.read_log(log):
+            if '-c' in r['argv']:
+                objs.extend(proj.step_outputs(r))
+        if rc != 0 or len(objs) != len(set(objs)) or len(objs) < 3:
+            res.violate((backend, 'outputs-collide', 'shared-build-dir-source'),
+                        dict(wb, objects=[os.path.relpath(o, bld) for o in objs], rc=rc,
+                             output=out[-300:]))
+        for o in objs:
+            if not o.startswith(bld + os.sep):
+                res.violate((backend, 'output-outside-builddir'), dict(wb, output=o))
+        res.ev('genshared:accepted')
+        res.sample = dict(wb, objects=sorted(os.path.relpath(o, bld) for o in objs))
+    finally:
+        core.rmtree(root)
+
+
 def run_case(case):
     res = CaseResult()
     {'pairs': run_pairs, 'set': run_set, 'dup': run_dup, 'stemfam': run_stemfam,
-     'sibling': run_sibling}[case['kind']](case, res)
+     'sibling': run_sibling, 'genshared': run_genshared}[case['kind']](case, res)
     return res
